@@ -6,7 +6,9 @@
    (beta + max_beta) / 2, whose denominator is the PRODUCT of the two denominators, so the size of
    beta doubles with every bisection step and step 40 no longer fits in memory.  Here every number
    the loop keeps from one step to the next (beta) and every partial sum of a row is passed through
-   `Qred` (value unchanged: Qred_correct).  Nothing else differs: same kernel row, same order of the
+   `Qred2`, which cancels the common factors of two of numerator and denominator (value unchanged:
+   Qred2_correct; linear time, where Qred's gcd is quadratic in the 1100 bits that DBL_MIN = 2^-1022
+   brings into sum_P; on dyadic numbers — every binary64 value is one — it reduces completely).  Nothing else differs: same kernel row, same order of the
    sums, same comparisons, same `next`.  exp and log stay value oracles; the only thing asked of
    them for the equivalence is that they are functions of the VALUE of their argument
    (Proper (Qeq ==> Qeq)), which the binary64 oracles of coq/extract/c17_driver.ml are. *)
@@ -15,6 +17,20 @@ From TK Require Import Tsne_Model.
 Import ListNotations.
 Local Open Scope Q_scope.
 
+(* cancel common factors of two *)
+Fixpoint red2_pos (n d : positive) : positive * positive :=
+  match n, d with
+  | xO n', xO d' => red2_pos n' d'
+  | _, _ => (n, d)
+  end.
+
+Definition Qred2 (q : Q) : Q :=
+  match Qnum q with
+  | Z0 => 0
+  | Zpos n => let (n', d') := red2_pos n (Qden q) in Zpos n' # d'
+  | Zneg n => let (n', d') := red2_pos n (Qden q) in Zneg n' # d'
+  end.
+
 Section PerplexityRed.
   Variable expf logf : Q -> Q.
   Variable dbl_min : Q.
@@ -22,12 +38,12 @@ Section PerplexityRed.
 
   Definition evaluate_r (self : option nat) (dd : list Q) (beta : Q) : evalr :=
     let P := kernel_row expf dbl_min self beta dd in
-    let sum_P := fold_left (fun a p => Qred (a + p)) P (Qred dbl_min) in
-    let H0 := fold_left (fun h xp => Qred (h + beta * (fst xp * snd xp))) (combine dd P) 0 in
-    mkEval beta P sum_P (Qred (H0 / sum_P + logf sum_P)).
+    let sum_P := fold_left (fun a p => Qred2 (a + p)) P (Qred2 dbl_min) in
+    let H0 := fold_left (fun h xp => Qred2 (h + beta * (fst xp * snd xp))) (combine dd P) 0 in
+    mkEval beta P sum_P (Qred2 (H0 / sum_P + logf sum_P)).
 
   Definition next_r (logperp : Q) (ev : evalr) (st : bstate) : bstate :=
-    let '(beta, minb, maxb) := next logperp ev st in (Qred beta, minb, maxb).
+    let '(beta, minb, maxb) := next logperp ev st in (Qred2 beta, minb, maxb).
 
   Fixpoint perp_loop_r (fuel : nat) (self : option nat) (dd : list Q) (perplexity : Q)
                        (st : bstate) (last : option evalr) : bool * option evalr :=
@@ -45,5 +61,5 @@ Section PerplexityRed.
   (* Row normalize, reduced: what the driver prints *)
   Definition perp_row_r (self : option nat) (dd : list Q) (perplexity : Q) : bool * option (Q * list Q) :=
     let r := perp_search_r self dd perplexity in
-    (fst r, option_map (fun ev => (e_beta ev, map (fun p => Qred (p / e_sum ev)) (e_row ev))) (snd r)).
+    (fst r, option_map (fun ev => (e_beta ev, map (fun p => Qred2 (p / e_sum ev)) (e_row ev))) (snd r)).
 End PerplexityRed.
